@@ -2,7 +2,9 @@
 //!
 //! `h_iso c20` reads one case per line and prints one observation per line.
 //!
-//!   case  = (sandboxed ooo pipeline fine (prog ...) (sched ...))
+//!   case  = (obs sandboxed ooo pipeline fine (prog ...) (sched ...))
+//!   obs   = 0: print the abstract trace (what the Coq model reproduces); 1: print the concrete
+//!           observation (responses, solo responses, ...) for the oracle
 //!   prog  = view grammar, see `build`
 //!   sched = coarse: ((0 r) | (1 r g) | (2 r) | (3 r)) ...   (start / fire gate / run / finish)
 //!           fine  : (n n n ...)  each n picks (mod the number of enabled actions) the next single
@@ -912,21 +914,35 @@ fn cleanups_of(out: &RunOut, r: usize) -> Sexp {
 /// observation = (abstract (ambient ...) ((events) (cleanups)) per request)
 ///               (concrete per request: (html solo_html finished solo_finished events_equal cleanups_equal skipped))
 fn run_case(c: &Sexp) -> Sexp {
-    let ooo = c.at(1).num() != 0;
-    let pipeline = c.at(2).num();
-    let fine = c.at(3).num() != 0;
-    let progs: Vec<Sexp> = c.at(4).list().to_vec();
+    let obs = c.at(0).num();
+    let ooo = c.at(2).num() != 0;
+    let pipeline = c.at(3).num();
+    let fine = c.at(4).num() != 0;
+    let progs: Vec<Sexp> = c.at(5).list().to_vec();
     let n = progs.len();
     let o = Opts { ooo, pipeline };
     let all: Vec<usize> = (1..=n).collect();
-    let coarse = parse_coarse(c.at(5));
-    let fine_s = c.at(5).nums();
+    let coarse = parse_coarse(c.at(6));
+    let fine_s = c.at(6).nums();
     let out = if fine {
         run_world(&progs, &all, &o, Plan::Fine(&fine_s))
     } else {
         run_world(&progs, &all, &o, Plan::Coarse(&coarse))
     };
-    let mut abs_reqs = vec![];
+    if obs == 0 {
+        // which of the request's *own* owners is current when a reactive closure is rendered
+        // depends on intra-request timing (an already-resolved Suspend renders in place): the
+        // abstract trace keeps the request of that owner and the root-level context only
+        let mut out = out;
+        for e in out.events.iter_mut() {
+            if e.kind == K_DYN {
+                e.t1 = -5;
+            }
+        }
+        let abs_reqs = (1..=n).map(|r| Lst(vec![events_of(&out, r), cleanups_of(&out, r)])).collect();
+        reset_world();
+        return Lst(vec![Lst(out.ambient.clone()), Lst(abs_reqs)]);
+    }
     let mut conc = vec![];
     for r in 1..=n {
         // solo run of r = the same actions of r, in the same order, with nobody else around
@@ -939,20 +955,20 @@ fn run_case(c: &Sexp) -> Sexp {
             .cloned()
             .collect();
         let solo = run_world(&progs, &[r], &o, Plan::Replay(&mine));
-        abs_reqs.push(Lst(vec![events_of(&out, r), cleanups_of(&out, r)]));
         conc.push(Lst(vec![
             Sexp::from_str(&out.html[r - 1]),
             Sexp::from_str(&solo.html[r - 1]),
             Sexp::bool(out.finished[r - 1]),
             Sexp::bool(solo.finished[r - 1]),
+            events_of(&out, r),
             events_of(&solo, r),
+            cleanups_of(&out, r),
             cleanups_of(&solo, r),
             Num(solo.skipped),
         ]));
     }
     reset_world();
-    let abs = Lst(vec![Lst(out.ambient.clone()), Lst(abs_reqs)]);
-    Lst(vec![abs, Lst(conc), Sexp::from_nums([out.skipped, out.leftover_woken, out.acts.len() as i64])])
+    Lst(vec![Lst(conc), Sexp::from_nums([out.skipped, out.leftover_woken, out.acts.len() as i64])])
 }
 
 fn main() {
@@ -963,7 +979,7 @@ fn main() {
         "c20" => {
             let sandboxed_build = cfg!(feature = "sandboxed");
             if sandboxed_build {
-                vsexp::drive(|c| if c.at(0).num() != 0 { run_case(c) } else { Lst(vec![Num(-7)]) });
+                vsexp::drive(|c| if c.at(1).num() != 0 { run_case(c) } else { Lst(vec![Num(-7)]) });
             } else {
                 drive_with_sibling();
             }
@@ -983,7 +999,7 @@ fn drive_with_sibling() {
         match Sexp::parse(line) {
             Err(e) => outs[i] = Some(format!("!parse-error {e}")),
             Ok(c) => {
-                if c.at(0).num() != 0 {
+                if c.at(1).num() != 0 {
                     fwd.push(i);
                     continue;
                 }
